@@ -580,6 +580,194 @@ fn stores_around_the_beam_then_idle(ctx: &Ctx) {
 
 /// Beam clause without ever placing the clock: the CPU idles (JR $) from the frame start until
 /// the chosen moment, so the renderer's own scheduling of its work is part of what is tested.
+/// A load that fails part-way has already put bytes into the display memory: whatever the outcome of
+/// the call, the next unchanged frames must show what the displayed memory now holds. Files arrive
+/// truncated at every structural boundary (and in the middle of the screen data), and through assets
+/// whose k-th call fails.
+fn failed_loads(ctx: &Ctx, quick: bool) {
+    let old = latin(40);
+    let new = latin(201);
+    let mut jobs: Vec<(Cfg, Writer, usize, usize)> = Vec::new(); // (cfg, writer, truncate-to (0 = whole), failing call (0 = none))
+    for c in [Cfg::K48, Cfg::K128Normal, Cfg::K128Shadow] {
+        for w in [Writer::Sna, Writer::SzxStored, Writer::SzxZlib, Writer::Scr] {
+            if w == Writer::Scr && c == Cfg::K128Shadow {
+                continue;
+            }
+            for k in 1..=(if quick { 12 } else { 40 }) {
+                jobs.push((c, w, 0, k));
+            }
+            for t in 0..(if quick { 12 } else { 48 }) {
+                jobs.push((c, w, t + 1, 0));
+            }
+        }
+    }
+    par_for(jobs.len(), 2, |j| {
+        let (c, w, trunc, failing) = jobs[j];
+        ctx.add_eval(1);
+        let is128 = m128(c);
+        let mut o = Opts::machine(is128);
+        o.sound = false;
+        let mut e = rig::emu(&o);
+        set_idle(&mut e);
+        let latch: u8 = if c == Cfg::K128Shadow { 0x0F } else { 0x00 };
+        if is128 && latch != 0 {
+            rig::poke(&mut e, 0x8800, &[0x01, 0xFD, 0x7F, 0x3E, latch, 0xED, 0x79, 0xC3, IDLE as u8, (IDLE >> 8) as u8]);
+            e.verif_cpu().regs.set_pc(0x8800);
+            frames(&mut e, 1);
+        }
+        // the old picture is on the screen before the load
+        rig::poke(&mut e, if c == Cfg::K128Shadow { 0xC000 } else { 0x4000 }, &old);
+        frames(&mut e, 2);
+        let mut s = MState::new(is128, 3);
+        s.port7ffd = latch;
+        s.regs.pc = IDLE;
+        s.regs.sp = 0xBF00;
+        s.regs.iff1 = false;
+        s.regs.iff2 = false;
+        s.banks[5][..6912].copy_from_slice(&new);
+        s.banks[7][..6912].copy_from_slice(&new);
+        s.banks[2][0x1000..0x1003].copy_from_slice(&[0xF3, 0x18, 0xFE]);
+        let mut file = match w {
+            Writer::Sna => {
+                if is128 {
+                    sna128(&s)
+                } else {
+                    sna48(&s)
+                }
+            }
+            Writer::SzxStored => szx(&s, &SzxOpts::default()),
+            Writer::SzxZlib => szx(&s, &SzxOpts { compressed: true, ..SzxOpts::default() }),
+            _ => scr(&new),
+        };
+        let full = file.len();
+        if trunc > 0 {
+            // cut points spread over the file, denser over its first 24K (headers, first pages)
+            let t = trunc - 1;
+            let cut = if t % 2 == 0 { (t / 2 + 1) * 24576usize.min(full) / 26 } else { (t / 2 + 1) * full / 26 };
+            file.truncate(cut.min(full - 1));
+        }
+        let cutlen = file.len();
+        let mut a = VAsset::new(file).eof_as_zero(j % 2 == 1);
+        if failing > 0 {
+            a.faults = vec![(failing - 1, rig::Fault::Err)];
+        }
+        let res = match w {
+            Writer::Sna => e.load_snapshot(Snapshot::Sna(a)).is_ok(),
+            Writer::Scr => e.load_screen(Screen::Scr(a)).is_ok(),
+            _ => e.load_snapshot(Snapshot::Szx(a)).is_ok(),
+        };
+        // whatever was restored of the CPU, it idles from here on
+        set_idle(&mut e);
+        frames(&mut e, 3);
+        let mem = displayed_memory(&e, is128);
+        let case = json!({"kind":"failed-load","cfg":format!("{:?}", c),"writer":format!("{:?}", w),"truncated_to":if trunc > 0 { cutlen } else { full },"failing_call":failing});
+        match compare_frame(&e, &mem) {
+            Ok(_) => ctx.outcome(0xFA11 ^ (res as u64) ^ ((mem[0] as u64) << 8) ^ ((mem[6911] as u64) << 16) ^ ((w as u64) << 24)),
+            Err((x, y, got, want)) => {
+                let changed = (0..6912).filter(|i| mem[*i] != old[*i]).count();
+                ctx.violation(
+                    &format!("C08:picture-after-{}-load:{:?}:{:?}", if res { "completed" } else { "failed" }, w, c),
+                    &format!(
+                        "{:?} load on {:?} ({}) returned {}: {} bytes of the displayed memory were replaced, but after three idle frames pixel ({},{}) shows {:02x} where the decode of the displayed memory gives {:02x}",
+                        w,
+                        c,
+                        if trunc > 0 { format!("file truncated to {} of {} bytes", cutlen, full) } else { format!("asset call {} fails", failing) },
+                        if res { "Ok" } else { "Err" },
+                        changed,
+                        x,
+                        y,
+                        got,
+                        want
+                    ),
+                    case,
+                );
+            }
+        }
+    });
+}
+
+/// A screen is written in two halves, `gap` frames apart (so that FLASH toggles fall between the
+/// halves), into the bank that is hidden or into the one that is shown; once it is on display and left
+/// alone, every cell flashes in the same phase: the frame is the decode of the whole bank in one phase.
+fn halves_written_across_flash_toggles(ctx: &Ctx, quick: bool) {
+    let content = latin(77);
+    let gaps: Vec<usize> = if quick { vec![1, 16, 17, 33] } else { vec![1, 2, 15, 16, 17, 31, 32, 33, 48, 49] };
+    let mut jobs: Vec<(u8, u8, usize, bool)> = Vec::new(); // (written bank, bank shown while writing, gap, by CPU)
+    for (bank, shown) in [(7u8, 5u8), (5, 7), (5, 5), (7, 7)] {
+        for g in gaps.iter() {
+            for cpu in [false, true] {
+                jobs.push((bank, shown, *g, cpu));
+            }
+        }
+    }
+    par_for(jobs.len(), 1, |j| {
+        let (bank, shown, gap, by_cpu) = jobs[j];
+        ctx.add_eval(1);
+        let mut o = Opts::k128();
+        o.sound = false;
+        let mut e = rig::emu(&o);
+        set_idle(&mut e);
+        let out_latch = |e: &mut Emu, v: u8| {
+            rig::poke(e, 0x8800, &[0x01, 0xFD, 0x7F, 0x3E, v, 0xED, 0x79, 0xC3, IDLE as u8, (IDLE >> 8) as u8]);
+            e.verif_cpu().regs.set_pc(0x8800);
+            frames(e, 1);
+        };
+        // the written bank sits at C000; bit 3 selects what is shown meanwhile
+        let while_writing = bank | if shown == 7 { 0x08 } else { 0 };
+        out_latch(&mut e, while_writing);
+        let put = |e: &mut Emu, from: usize, to: usize| {
+            // bitmap bytes and attribute bytes of the same third of the range travel together
+            let ranges = [(from * 6144 / 768, to * 6144 / 768, 0usize), (from, to, 6144usize)];
+            for (a, b, base) in ranges {
+                let bytes = &content[base + a..base + b];
+                let dst = 0xC000u16 + (base + a) as u16;
+                if by_cpu {
+                    rig::poke(e, 0xA000, bytes);
+                    let n = bytes.len() as u16;
+                    rig::poke(e, 0x8900, &[0x21, 0x00, 0xA0, 0x11, dst as u8, (dst >> 8) as u8, 0x01, n as u8, (n >> 8) as u8, 0xED, 0xB0, 0xC3, IDLE as u8, (IDLE >> 8) as u8]);
+                    e.verif_cpu().regs.set_pc(0x8900);
+                    frames(e, 3);
+                } else {
+                    rig::poke(e, dst, bytes);
+                }
+            }
+        };
+        put(&mut e, 0, 384);
+        frames(&mut e, gap);
+        put(&mut e, 384, 768);
+        // show the written bank and leave it alone
+        out_latch(&mut e, bank | if bank == 7 { 0x08 } else { 0 });
+        let case = json!({"kind":"halves-across-flash","bank":bank,"shown_while_writing":shown,"gap":gap,"by_cpu":by_cpu});
+        for f in 0..3 {
+            frames(&mut e, if f == 0 { 2 } else { 5 });
+            let mem = e.verif_ram_bank(bank)[..6912].to_vec();
+            if mem[..] != content[..] {
+                ctx.violation("C08:halves-across-flash:memory", "the written bank does not hold the content", case.clone());
+                return;
+            }
+            if let Err((x, y, g, w)) = compare_frame(&e, &mem) {
+                ctx.violation(
+                    &format!("C08:halves-across-flash:bank{}-written-while-bank{}-shown", bank, shown),
+                    &format!(
+                        "bank {} written in two halves {} frames apart ({}) while bank {} was shown, then displayed and left alone: the frame is not the decode of the bank in either FLASH phase: pixel ({},{}) {:02x} vs {:02x}",
+                        bank,
+                        gap,
+                        if by_cpu { "LDIR" } else { "pokes" },
+                        shown,
+                        x,
+                        y,
+                        g,
+                        w
+                    ),
+                    case.clone(),
+                );
+                return;
+            }
+        }
+        ctx.outcome(0xF1A5 ^ ((bank as u64) << 8) ^ ((gap as u64) << 16));
+    });
+}
+
 fn beam_clause_free_running(ctx: &Ctx, is128: bool, lines: &[usize]) {
     let sp = spec(is128);
     let jobs: Vec<(usize, usize)> = lines.iter().flat_map(|l| [0usize, 15, 31].into_iter().map(move |c| (*l, c))).collect();
@@ -822,6 +1010,8 @@ pub fn run(tier: Tier, seed: u64, replay: Option<String>) -> i32 {
     save_with_stack_in_screen(&ctx);
     fastload_short_block(&ctx);
     stores_around_the_beam_then_idle(&ctx);
+    failed_loads(&ctx, quick);
+    halves_written_across_flash_toggles(&ctx, quick);
     let lines: Vec<usize> = if quick { vec![0, 1, 7, 8, 63, 64, 65, 100, 127, 128, 190, 191] } else { (0..192).collect() };
     beam_clause(&ctx, false, &lines);
     beam_clause(&ctx, true, &lines);
@@ -832,7 +1022,7 @@ pub fn run(tier: Tier, seed: u64, replay: Option<String>) -> i32 {
     ctx.note("contents", json!(contents.len()));
     ctx.note("not_judged", json!("phase of the first FLASH swap; stores completing within +-16 T of the ULA fetch of the byte"));
     ctx.finish(
-        "contents: Latin frames (bitmap[a]=(17a+j) mod 256, attr[a]=(29a+3j) mod 256: every screen address meets every byte value over j) and 26 address-line frames; writers: LDIR, explicit CPU store loop, execute_poke, tape fast load through the ROM trap, SNA, SZX stored, SZX zlib, SCR (files through assets returning short reads of rotating sizes {whole,1,2,3,7,127,128,129}); configurations: 48K, 128K normal screen, 128K shadow screen written through C000, bank 5 written through C000; after two unchanged frames all 49152 pixels (colour and brightness) are compared with the standard decode of the displayed bank; FLASH run lengths over 48 frames; paging bit 3 switched between frames, also after the latch is locked (the displayed bank is computed from the reference latch, not from the implementation); snapshot with both screens loaded then flipped by the program; SNA/SZX save with SP inside the display memory; tape blocks shorter than the request fast-loaded over a picture already shown; two stores in one frame on both sides of the beam followed by six idle frames; beam clause on picture lines x columns {0,15,31} x store times -90..+70 T around the ULA fetch. distinct_nontrivial = (configuration, writer, content) cases",
+        "contents: Latin frames (bitmap[a]=(17a+j) mod 256, attr[a]=(29a+3j) mod 256: every screen address meets every byte value over j) and 26 address-line frames; writers: LDIR, explicit CPU store loop, execute_poke, tape fast load through the ROM trap, SNA, SZX stored, SZX zlib, SCR (files through assets returning short reads of rotating sizes {whole,1,2,3,7,127,128,129}); configurations: 48K, 128K normal screen, 128K shadow screen written through C000, bank 5 written through C000; after two unchanged frames all 49152 pixels (colour and brightness) are compared with the standard decode of the displayed bank; FLASH run lengths over 48 frames; paging bit 3 switched between frames, also after the latch is locked (the displayed bank is computed from the reference latch, not from the implementation); snapshot with both screens loaded then flipped by the program; SNA/SZX save with SP inside the display memory; tape blocks shorter than the request fast-loaded over a picture already shown; two stores in one frame on both sides of the beam followed by six idle frames; a 128K screen bank written in two halves 1..49 frames apart (FLASH toggles in between) while hidden or shown, then displayed: one FLASH phase for all cells; SNA/SZX/SCR loads over a shown picture from files truncated at cut points spread over the file and through assets whose k-th call fails, the picture compared with the displayed memory as the call left it; beam clause on picture lines x columns {0,15,31} x store times -90..+70 T around the ULA fetch. distinct_nontrivial = (configuration, writer, content) cases",
         false,
         &["quick tier rotates contents over the non-LDIR writers (each writer sees a quarter of the contents)", "beam clause places the frame clock through the hook"],
     )
